@@ -433,7 +433,7 @@ ENGINE_INV = ["BindingsImmutable", "Independent", "NoCarryOver", "Deterministic"
 
 def engine_cfg(pol="MCPol", budget=3, cells=()):
     return ("CONSTANT ExtractedCells = {%s}\n" % ", ".join('"%s"' % c for c in cells) +
-            "CONSTANT G = 2\nCONSTANT Budget = %d\nCONSTANT Templates <- MCTemplates\nCONSTANT Envs <- MCEnvs\n"
+            "CONSTANT G = 2\nCONSTANT Budget = %d\nCONSTANT Templates <- MCTemplates\nCONSTANT Envs <- MCEnvs\nCONSTANT Cache <- MCCache\n"
             "CONSTANT Pol <- %s\nINIT EInit\nNEXT ENext\nCHECK_DEADLOCK FALSE\nINVARIANTS %s\n"
             % (budget, pol, " ".join(ENGINE_INV)))
 
@@ -455,6 +455,8 @@ def session_events(obs_list, tag=""):
                  "outcome": ev["outcome"], "out": ev.get("out", [])}
             if o.get("anyorder"):
                 e["anyorder"] = o["anyorder"]
+            if o.get("cache"):
+                e["cache"] = o["cache"]
             events.append(e)
     return events, index
 
@@ -591,7 +593,13 @@ def check_C04(ctx):
     import glob
     import vcheck
     found = extract_cells(ctx)
-    cells = sorted({"cycle.err" if "cycleTag" in c["func"] else "%s.%s" % (c["func"].split("/")[-1], c["var"]) for c in found})
+    def cell_name(c):
+        if "cycleTag" in c["func"]:
+            return "cycle.err"
+        if c["kind"] == "sharedmap" and "render.Config" in c["var"]:
+            return "engine.cache"
+        return "%s.%s" % (c["func"].split("/")[-1], c["var"])
+    cells = sorted({cell_name(c) for c in found})
     ctx.extra_cov["extracted_shared_cells"] = found
     # all interleavings of the engine model over the extracted access table
     import vcheck as vc
